@@ -105,7 +105,7 @@ class Flow:
                         if isinstance(e, ast.Name) and e.id == name:
                             if isinstance(st.value, (ast.Tuple, ast.List)) and len(st.value.elts) == len(t.elts):
                                 return st.value.elts[i]
-                            if isinstance(st.value, ast.Call):
+                            if isinstance(st.value, (ast.Call, ast.Name, ast.Attribute)):
                                 return ast.fix_missing_locations(ast.copy_location(ast.Subscript(value=st.value, slice=ast.Constant(i), ctx=ast.Load()), st.value))
         if isinstance(st, ast.AnnAssign) and st.value is not None and isinstance(st.target, ast.Name) and st.target.id == name:
             return st.value
@@ -232,6 +232,13 @@ class Flow:
                 if value is None:
                     return n
                 return T(live[0], self.depth - 1).visit(clone(value))
+
+            def visit_Subscript(self, n):
+                n = self.generic_visit(n)
+                if isinstance(n.value, (ast.Tuple, ast.List)) and isinstance(n.slice, ast.Constant) and isinstance(n.slice.value, int) \
+                        and -len(n.value.elts) <= n.slice.value < len(n.value.elts) and not any(isinstance(e, ast.Starred) for e in n.value.elts):
+                    return n.value.elts[n.slice.value]
+                return n
 
             def visit_IfExp(self, n):
                 v = decide(n.test, self.at, self.depth - 1)
